@@ -77,6 +77,11 @@ def cases(tier, seed):
         progs = p1 + p2
         for i in range(0, len(progs), 8):
             yield {"named": named, "programs": progs[i:i + 8]}
+    # the same one-level programs built from user SUBCLASSES of Pipeline / FeatureUnion / ColumnTransformer
+    for named in (True, False):
+        p1 = _programs(1, named)
+        for i in range(0, len(p1), 8):
+            yield {"named": named, "programs": p1[i:i + 8], "subclass": True}
     # wide pipelines on 12 input columns: many generated names, selectors reaching column 11, three-branch unions
     S_, M_ = ["S"], ["M"]
     ct8 = ["CT", [[M_, [0, 1, 2, 3, 4, 5, 6, 7]]], "passthrough"]
@@ -109,10 +114,44 @@ def cases(tier, seed):
         yield {"named": named, "programs": degenerate}
 
 
-def _build(p):
-    from sklearn.preprocessing import StandardScaler, MinMaxScaler
+_SUBCLASS = False
+_SUBS = None
+
+
+def _CONTAINER_BASES():
     from sklearn.pipeline import Pipeline, FeatureUnion
     from sklearn.compose import ColumnTransformer
+    return (Pipeline, FeatureUnion, ColumnTransformer)
+
+
+def _containers():
+    """The three scikit-learn containers, or (case flag 'subclass') user subclasses of them: mlinsights' own PipelineCache, imblearn's
+    Pipeline and many projects derive from these classes."""
+    global _SUBS
+    from sklearn.pipeline import Pipeline, FeatureUnion
+    from sklearn.compose import ColumnTransformer
+    if not _SUBCLASS:
+        return Pipeline, FeatureUnion, ColumnTransformer
+    if _SUBS is None:
+        class ProjectPipeline(Pipeline):
+            pass
+
+        class ProjectUnion(FeatureUnion):
+            pass
+
+        class ProjectColumns(ColumnTransformer):
+            pass
+        for c in (ProjectPipeline, ProjectUnion, ProjectColumns):
+            c.__module__ = __name__
+            c.__qualname__ = c.__name__
+            globals()[c.__name__] = c
+        _SUBS = (ProjectPipeline, ProjectUnion, ProjectColumns)
+    return _SUBS
+
+
+def _build(p):
+    from sklearn.preprocessing import StandardScaler, MinMaxScaler
+    Pipeline, FeatureUnion, ColumnTransformer = _containers()
     if p[0] == "S":
         return StandardScaler()
     if p[0] == "M":
@@ -268,6 +307,8 @@ def run_case(case):
     from mlinsights.plotting import pipeline2dot, pipeline2str
 
     warnings.simplefilter("ignore")
+    global _SUBCLASS
+    _SUBCLASS = bool(case.get("subclass"))
     viol = []
     sigs = set()
 
@@ -419,8 +460,8 @@ def run_case(case):
                 alll = list(labels.values())
                 for _c, m in _ref_enum(pipe):
                     nm = "Identity" if isinstance(m, str) else type(m).__name__
-                    if nm in ("Pipeline", "FeatureUnion", "ColumnTransformer"):
-                        continue
+                    if not isinstance(m, str) and isinstance(m, _CONTAINER_BASES()):
+                        continue      # containers (and their subclasses) are drawn through their children
                     if nm not in alll:
                         bad("pipeline2dot: a step does not appear", cond, "%s %s\n%s" % (nm, desc, dot[:900]))
                         break
